@@ -164,6 +164,16 @@ CLAIMS = {
         "context gives for the same bytes.",
    note="quick: 160 sequences of 14 operations (about 2e3 steps, 8e3 verifications); thorough: 1600 sequences. Prepending a local aggregation chain and RFC3161 forms are not exercised.",
    technique="TLC simulation of an object-lifecycle model (behaviours with post-states) replayed step by step into the real library with abstract-state comparison after every action; fresh-context oracle"),
+ "C19": dict(level="fault_enumeration", design_ref="DESIGN.md 4/C19",
+   text="AllocFault.tla describes one fault experiment per operation -- Reference, Count, Fault(F), Cleanup, Retry -- and the guards of its actions say what may be observed: "
+        "a faulted run ends in an error or in exactly the reference result and never in a crash, a fault that is not reached changes nothing, nothing the operation allocated is "
+        "left behind, and the same operation repeated unfaulted on the same context gives the reference result. The drivers are linked with --wrap=malloc,calloc,realloc so that "
+        "every allocation made by libksi's own objects is counted and chosen ones fail; a catalogue of operations over all modules (signature parse / verify / serialize, PDU "
+        "parse, hash chains, tree builder, publications file parse / PKI verify / lookup, publication strings, context creation, blocking sign and extend and anchor-policy "
+        "verification with extension on scripted sockets, async and HA signing, clone / rebuild) is driven through every single allocation index plus random multi-fault sets. "
+        "One event per step is recorded and TLC validates the recorded trace against Trace_AllocFault.tla; events whose action is not ENABLED are the violations.",
+   note="quick: up to 260 single indices per operation + 20 multi-fault sets; thorough: up to 6000 + 200. Leaks are decided by LeakSanitizer's recoverable check after freeing the objects of the operation.",
+   technique="trace validation by TLC of recorded allocation-fault experiments (link-time malloc interposition + LeakSanitizer) against an explicit experiment model"),
 }
 for e in ENGINES:
     e["serves_properties"] = sorted(CLAIMS)
